@@ -30,9 +30,21 @@ func AcquireDirLock(dir string, fs vfs.FS) (*DirLock, error) {
 		return nil, err
 	}
 	lockPath := filepath.Join(dir, "LOCK")
+	for {
+		lock, retry, err := acquireDirLockOnce(dir, lockPath, fs)
+		if !retry {
+			return lock, err
+		}
+	}
+}
+
+// acquireDirLockOnce opens and locks the LOCK file once. retry is true when the
+// file was unlinked by a releasing holder between our open and our flock, in
+// which case the lock we got is on a dead inode and must not be trusted.
+func acquireDirLockOnce(dir, lockPath string, fs vfs.FS) (lock *DirLock, retry bool, err error) {
 	f, err := fs.OpenFileHandle(lockPath, os.O_CREATE|os.O_RDWR, 0o600)
 	if err != nil {
-		return nil, err
+		return nil, false, err
 	}
 	success := false
 	defer func() {
@@ -42,13 +54,23 @@ func AcquireDirLock(dir string, fs vfs.FS) (*DirLock, error) {
 	}()
 	fd, ok := vfs.FileFD(f)
 	if !ok {
-		return nil, fmt.Errorf("dirlock: file %q does not expose descriptor", lockPath)
+		return nil, false, fmt.Errorf("dirlock: file %q does not expose descriptor", lockPath)
 	}
 	if err := syscall.Flock(int(fd), syscall.LOCK_EX|syscall.LOCK_NB); err != nil {
 		if errors.Is(err, syscall.EWOULDBLOCK) {
-			return nil, fmt.Errorf("dirlock: directory %q already in use", dir)
+			return nil, false, fmt.Errorf("dirlock: directory %q already in use", dir)
 		}
-		return nil, err
+		return nil, false, err
+	}
+	// Release removes LOCK while it still holds the flock. If the path no
+	// longer names the file we locked, another contender may create and lock
+	// a fresh LOCK file: drop this descriptor and start over.
+	current, err := lockFileCurrent(f, lockPath, fs)
+	if err != nil {
+		return nil, false, err
+	}
+	if !current {
+		return nil, true, nil
 	}
 	if err := f.Truncate(0); err == nil {
 		pid := os.Getpid()
@@ -60,27 +82,46 @@ func AcquireDirLock(dir string, fs vfs.FS) (*DirLock, error) {
 		_ = f.Sync()
 	}
 	success = true
-	return &DirLock{file: f, path: lockPath, fs: fs}, nil
+	return &DirLock{file: f, path: lockPath, fs: fs}, false, nil
 }
 
-// Release unlocks the directory and removes the lock file.
+// lockFileCurrent reports whether lockPath still names the open file f.
+func lockFileCurrent(f vfs.File, lockPath string, fs vfs.FS) (bool, error) {
+	held, err := f.Stat()
+	if err != nil {
+		return false, err
+	}
+	cur, err := fs.Stat(lockPath)
+	if err != nil {
+		if errors.Is(err, os.ErrNotExist) {
+			return false, nil
+		}
+		return false, err
+	}
+	return os.SameFile(held, cur), nil
+}
+
+// Release removes the lock file and unlocks the directory.
 func (l *DirLock) Release() error {
 	if l == nil || l.file == nil {
 		return nil
 	}
 	var firstErr error
+	// Remove the lock file while the flock is still held, so that nobody can
+	// lock the inode we are about to unlink and believe it owns the directory
+	// (AcquireDirLock re-checks the path after flock).
+	fs := vfs.Ensure(l.fs)
+	if err := fs.Remove(l.path); err != nil && !errors.Is(err, os.ErrNotExist) {
+		firstErr = err
+	}
 	if fd, ok := vfs.FileFD(l.file); ok {
-		if err := syscall.Flock(int(fd), syscall.LOCK_UN); err != nil {
+		if err := syscall.Flock(int(fd), syscall.LOCK_UN); err != nil && firstErr == nil {
 			firstErr = err
 		}
-	} else {
+	} else if firstErr == nil {
 		firstErr = fmt.Errorf("dirlock: file %q does not expose descriptor", l.path)
 	}
 	if err := l.file.Close(); err != nil && firstErr == nil {
-		firstErr = err
-	}
-	fs := vfs.Ensure(l.fs)
-	if err := fs.Remove(l.path); err != nil && !errors.Is(err, os.ErrNotExist) && firstErr == nil {
 		firstErr = err
 	}
 	l.file = nil
